@@ -211,6 +211,10 @@ func runC16(w *mon.W) {
 		} else {
 			w.Add("listings_with_blank_indent", 1)
 		}
+		mixedIndent := r.Intn(6) == 0
+		if mixedIndent {
+			w.Add("listings_with_mixed_indent", 1)
+		}
 		suppliers := map[byte]string{}
 		var avail []byte
 		for i := 0; i < 26; i++ {
@@ -227,7 +231,11 @@ func runC16(w *mon.W) {
 			name += fmt.Sprintf(" (%d/%02d)", 1+r.Intn(12), r.Intn(22))
 			suppliers[letters[i]] = name
 			avail = append(avail, letters[i])
-			sb.WriteString(indent + string(letters[i]) + "        " + name + "\n")
+			lineIndent := indent
+			if mixedIndent { // one table whose lines are indented differently (blanks of several widths, tabs)
+				lineIndent = []string{strings.Repeat(" ", 16), strings.Repeat(" ", 4+r.Intn(20)), "\t", "\t\t", " \t"}[r.Intn(5)]
+			}
+			sb.WriteString(lineIndent + string(letters[i]) + "        " + name + "\n")
 		}
 		sb.WriteString("\n")
 		// records
